@@ -39,13 +39,15 @@ void run(Src &src, Case &c)
 {
     xmlKeepBlanksDefault(1);
     // ---- plan, drawn first
-    const bool extMove = src.flip(60);
+    const unsigned raw0 = static_cast<unsigned>(src.below(100));
+    const bool extMove = raw0 >= 40; // as flip(60)
+    const unsigned baseNaming = raw0 % 5; // naming of the base model: 0 the generator's names, 1-4 a renaming scheme (spare bits of the same draw)
     const bool extReaders = src.flip(45);
     const size_t nMeta = 1 + src.below(3);
     std::vector<MetaPlan> metaPlan(nMeta);
     for (auto &p : metaPlan) {
         p.mask = 1 + static_cast<unsigned>(src.below(255));
-        p.scheme = static_cast<unsigned>(src.below(4));
+        p.scheme = static_cast<unsigned>(src.below(5));
     }
     const size_t nVariants = src.below(3);
     std::vector<int> variantKinds(nVariants);
@@ -66,6 +68,9 @@ void run(Src &src, Case &c)
     }
     bool moved = extMove && moveInitialValues(base, src);
     bool readers = extReaders && addNlaReaders(base, src);
+    if (baseNaming != 0) {
+        applyTransform(base, T_RENAME_VARIABLES, src, baseNaming);
+    }
     rebuildMath(base);
     c.text = specToText(base.spec) + "\n" + base.describe();
     c.hash = hashStr(c.text);
@@ -87,12 +92,27 @@ void run(Src &src, Case &c)
             }
         }
     }
-    bool namesDiffer = false;
+    bool namesDiffer = false, nameCollision = false, primaryNameReused = false;
     for (size_t k = 0; k < base.classes.size(); ++k) {
         guess = guess || base.classes[k].guess;
         std::set<std::string> names;
+        int home = base.homeComp(static_cast<int>(k));
         for (size_t ci : base.compsWith(static_cast<int>(k))) {
-            names.insert(base.spec.comps[ci].vars[static_cast<size_t>(base.instanceIn(static_cast<int>(k), ci))].name);
+            const std::string &n = base.spec.comps[ci].vars[static_cast<size_t>(base.instanceIn(static_cast<int>(k), ci))].name;
+            names.insert(n);
+            // the name of a member outside the defining component is also the name of an unrelated variable inside it
+            if (home >= 0 && static_cast<int>(ci) != home) {
+                const auto &hc = base.spec.comps[static_cast<size_t>(home)];
+                for (size_t v = 0; v < hc.vars.size(); ++v) {
+                    primaryNameReused = primaryNameReused || (hc.vars[v].name == n && base.classOf[static_cast<size_t>(home)][v] != static_cast<int>(k));
+                }
+            }
+            // an unrelated variable of another component carries the same name
+            for (size_t cj = 0; cj < base.spec.comps.size(); ++cj) {
+                for (size_t v = 0; cj != ci && v < base.spec.comps[cj].vars.size(); ++v) {
+                    nameCollision = nameCollision || (base.spec.comps[cj].vars[v].name == n && base.classOf[cj][v] != static_cast<int>(k));
+                }
+            }
         }
         namesDiffer = namesDiffer || names.size() > 1;
     }
@@ -102,7 +122,10 @@ void run(Src &src, Case &c)
     if (!base.systems.empty()) c.cls(guess ? "nla-with-guesses" : "nla-single-unknown");
     if (moved) c.cls("initial-value-on-another-instance");
     if (readers) c.cls("reads-nla-unknown");
-    if (namesDiffer) c.cls("class-with-differently-named-instances");
+    if (namesDiffer) c.cls("names:class-members-differ");
+    if (nameCollision) c.cls("names:collision-across-components");
+    if (primaryNameReused) c.cls("names:primary-name-reused-in-computing-component");
+    c.cls("base-naming:" + std::to_string(baseNaming));
     c.count("equations", static_cast<long>(base.equationCount()));
 
     // ---- (a) + (b) on the base model
